@@ -52,6 +52,50 @@ def run_one(pid, m):
     finally:
         subprocess.run(["git", "-C", "/repo", "worktree", "remove", "--force", r], stdout=subprocess.DEVNULL, stderr=subprocess.DEVNULL)
         shutil.rmtree(d, ignore_errors=True)
+def run_patch(pid, patch, is_script=False):
+    """apply a diff (or run a script) on a scratch worktree and run the property's quick check; returns the VIOLATION lines or None if stale"""
+    d = tempfile.mkdtemp(prefix="pvst.", dir="/var/tmp")
+    r = os.path.join(d, "repo"); vv = os.path.join(d, "verif")
+    try:
+        subprocess.run(["git", "-C", "/repo", "worktree", "add", "--detach", "-q", r, "HEAD"], check=True, stdout=subprocess.DEVNULL, stderr=subprocess.DEVNULL)
+        os.makedirs(vv); shutil.copy(V + "/known_findings.json", vv)
+        a = subprocess.run(["sh", patch] if is_script else ["git", "apply", patch], cwd=r, stdout=subprocess.DEVNULL, stderr=subprocess.DEVNULL)
+        if a.returncode != 0:
+            return None
+        b = subprocess.run("go build ./...", cwd=r, env=ENV, shell=True, stdout=subprocess.DEVNULL, stderr=subprocess.DEVNULL)
+        if b.returncode != 0:
+            return None
+        q = subprocess.run([V + "/bin/pv", "check", "-repo", r, "-verif", vv, pid], stdout=subprocess.PIPE, stderr=subprocess.STDOUT, env=ENV)
+        return [l for l in q.stdout.decode(errors="replace").splitlines() if l.startswith("VIOLATION")]
+    finally:
+        subprocess.run(["git", "-C", "/repo", "worktree", "remove", "--force", r], stdout=subprocess.DEVNULL, stderr=subprocess.DEVNULL)
+        shutil.rmtree(d, ignore_errors=True)
+
+def seeds_and_controls(pid, quiet):
+    """independent seeded changes recorded as detected by this property must still be detected; behaviour-preserving
+    controls must stay silent"""
+    import glob
+    seeds = []
+    for mp in sorted(glob.glob(V + "/seeded/*/meta.json")):
+        m = json.load(open(mp))
+        db = m.get("detected_by")
+        if isinstance(db, dict) and pid in db:
+            seeds.append(os.path.dirname(mp))
+    controls = sorted(glob.glob(V + "/controls/*.diff")) + sorted(glob.glob(V + "/controls/*.sh"))
+    with concurrent.futures.ThreadPoolExecutor(max_workers=6) as ex:
+        sres = list(ex.map(lambda sd: (os.path.basename(sd), run_patch(pid, os.path.join(sd, "patch.diff"))), seeds))
+        cres = list(ex.map(lambda cp: (os.path.basename(cp), run_patch(pid, cp, cp.endswith(".sh"))), controls))
+    s_det = [n for n, v in sres if v]; s_stale = [n for n, v in sres if v is None]; s_miss = [n for n, v in sres if v == []]
+    c_clean = [n for n, v in cres if v == []]; c_stale = [n for n, v in cres if v is None]; c_alarm = [(n, v[0][:200]) for n, v in cres if v]
+    for n in s_miss:
+        print("SELFTEST-MISS property=%s seed=%s (was detected when recorded)" % (pid, n))
+    for n, l in c_alarm:
+        print("SELFTEST-FALSE-ALARM property=%s control=%s %s" % (pid, n, l))
+    print("selftest: property=%s seeds=%d detected=%d stale=%d missed=%d ; controls=%d silent=%d stale=%d false_alarms=%d" % (
+        pid, len(sres), len(s_det), len(s_stale), len(s_miss), len(cres), len(c_clean), len(c_stale), len(c_alarm)))
+    return {"independent_seeds": {"applied": len(sres) - len(s_stale), "detected": len(s_det), "missed": s_miss, "stale": s_stale},
+            "behaviour_preserving_controls": {"applied": len(cres) - len(c_stale), "silent": len(c_clean), "false_alarms": [n for n, _ in c_alarm], "stale": c_stale}}
+
 def main():
     args = [a for a in sys.argv[1:] if not a.startswith("-")]
     quiet = "-q" in sys.argv
@@ -69,10 +113,12 @@ def main():
             elif not quiet:
                 print("selftest %s %s: %s %s" % (pid, r["id"], r["status"], r.get("line", r.get("note", ""))[:200]))
         print("selftest: property=%s mutants=%d detected=%d stale=%d missed=%d" % (pid, len(res), det, stale, len(res) - det - stale))
+        extra = seeds_and_controls(pid, quiet) if "--full" in sys.argv else {}
         # record in the evidence file written by the check that ran just before
         ev = os.path.join(V, "evidence", pid + ".json")
         if os.path.exists(ev):
             e = json.load(open(ev))
+            e["coverage"].update(extra)
             e["coverage"]["mutants"] = {"applied": len(res) - stale, "detected": det, "stale": stale, "missed": [r["id"] for r in res if r["status"] == "MISSED"],
                                         "results": [{k: v for k, v in r.items() if k != "other"} for r in res]}
             json.dump(e, open(ev, "w"), indent=1)
